@@ -15,7 +15,7 @@ EXTENDS Auth, Json
 
 CONSTANTS MAXOPS,
           BASES,     \* subset of {"B0","B1"}
-          CHAINS,    \* subset of {"main","test"}
+          CHAINS,    \* subset of {"main","main2","test"} (exocore_233-1, exocore_233-2, exocoretestnet_233-1)
           REJBUDGET  \* calls without effect allowed per behaviour (>= MAXOPS: unlimited); biases -simulate
 
 VARIABLES st, base, chain, hist, last, nrej
